@@ -28,6 +28,7 @@ import (
 	"sort"
 	"strconv"
 	"strings"
+	"sync"
 	"testing"
 	"time"
 
@@ -820,7 +821,8 @@ func wirNonZero(t reflect.Type, rng *rand.Rand, avoid any) any {
 		if wirEquiv(p, zero, time.Now()) && t.NumField() > 0 && try < 50 {
 			continue // want something that differs from new(T) after the round trip
 		}
-		if avoid != nil && reflect.DeepEqual(p.Interface(), avoid) && try < 50 {
+		// must differ from `avoid` even after a JSON round trip (absent versus empty lists are the same there)
+		if avoid != nil && (wirEquiv(p, reflect.ValueOf(avoid), time.Now()) || wirEquiv(reflect.ValueOf(avoid), p, time.Now())) && try < 50 {
 			continue
 		}
 		return p.Interface()
@@ -1024,7 +1026,6 @@ func wirCmdOp(r *h.Report, fns map[string]*wirFn, op string) (impl string, kind 
 	if (wirUsesSel(sh) && f.selT == nil) || (wirUsesEl(sh) && f.elT == nil) {
 		return "n/a", "n/a"
 	}
-	ops := []string{op}
 	now := time.Now()
 	given := wirMakeArgs(f, rand.New(rand.NewSource(seed))) // handed to the API
 	a := wirMakeArgs(f, rand.New(rand.NewSource(seed)))     // the same values, never seen by the API
@@ -1032,7 +1033,14 @@ func wirCmdOp(r *h.Report, fns map[string]*wirFn, op string) (impl string, kind 
 	if _, e := fd.UpdateDataAny(false, true, given.data, nil, nil); e != nil {
 		return "cannot-set-data", "error"
 	}
-	var cmd model.CmdType
+	impl, kind, _, _ = wirCmdEval(r, f, sh, fd, given, a, []string{op}, now)
+	return impl, kind
+}
+
+// wirCmdEval builds one command on the given function-data instance (whatever its history), encodes,
+// decodes, recognises; returns the canonical observation, and the command / panic for comparisons
+// between instances; evaluates the SPEC monitor (a: the values put in, never seen by the API).
+func wirCmdEval(r *h.Report, f *wirFn, sh string, fd api.FunctionDataCmdInterface, given, a wirArgs, ops []string, now time.Time) (impl string, kind string, cmd model.CmdType, pan any) {
 	if p := h.Recover(func() { cmd = wirBuild(fd, sh, given) }); p != nil {
 		cls := wirPanicClass(p)
 		key := "C18/build-panics:" + sh
@@ -1040,8 +1048,13 @@ func wirCmdOp(r *h.Report, fns map[string]*wirFn, op string) (impl string, kind 
 			key = "C18/notify-delete-filter-panics"
 		}
 		r.SpecFail(key, ops, fmt.Sprintf("%s %s: the API panics while building the command: %v", f.name, sh, p))
-		return cls, "panic:" + sh
+		return cls, "panic:" + sh, cmd, p
 	}
+	impl, kind = wirCmdJudge(r, f, sh, cmd, a, ops, now)
+	return impl, kind, cmd, nil
+}
+
+func wirCmdJudge(r *h.Report, f *wirFn, sh string, cmd model.CmdType, a wirArgs, ops []string, now time.Time) (impl string, kind string) {
 	text, err := json.Marshal(cmd)
 	if err != nil {
 		r.SpecFail("C18/marshal-error", ops, err.Error())
@@ -1159,8 +1172,217 @@ func wirCmdOp(r *h.Report, fns map[string]*wirFn, op string) (impl string, kind 
 	return impl, "ok:" + sh
 }
 
+// ---- builder purity: the command a builder returns is a function of (function, stored data,
+// arguments) — nothing may be carried from one call to the next on the same function-data instance.
+//
+// A history is a list of ops on ONE long-lived instance:
+//   inst <function>        create the instance (no data stored yet)
+//   set <seed>             store new data (UpdateDataAny, full, persist)
+//   call <shape> <seed>    build a command; it is (i) judged like any other command (model + SPEC),
+//                          (ii) built a second time in a row with equal arguments — must be equal,
+//                          (iii) built on a FRESH instance holding the same data — must be equal,
+//                          (iv) and the command returned by the PREVIOUS call must still be what it was.
+
+func wirSameBuild(c1 model.CmdType, p1 any, c2 model.CmdType, p2 any) bool {
+	if p1 != nil || p2 != nil {
+		return p1 != nil && p2 != nil && wirPanicClass(p1) == wirPanicClass(p2)
+	}
+	return reflect.DeepEqual(c1, c2)
+}
+
+func wirCmdText(c model.CmdType, p any) string {
+	if p != nil {
+		return wirPanicClass(p)
+	}
+	b, _ := json.Marshal(c)
+	if len(b) > 600 {
+		b = append(b[:600], " …"...)
+	}
+	return string(b)
+}
+
+// wirSeq runs a history; returns false when the model disagreed somewhere.
+func wirSeq(r *h.Report, d *h.Driver, fns map[string]*wirFn, ops []string) bool {
+	fl0 := strings.Fields(ops[0])
+	if len(fl0) != 2 || fl0[0] != "inst" || fns[fl0[1]] == nil {
+		panic("a history starts with: inst <function>; got " + ops[0])
+	}
+	f := fns[fl0[1]]
+	fd := wirNewFD(f)
+	dataSeed := int64(-1)
+	agreed := true
+	// the command returned by the previous call, and what it looked like when it was returned
+	var prevCmd *model.CmdType
+	prevSnap, prevShape := "", ""
+	snap := func(c *model.CmdType) string {
+		b, _ := json.Marshal(wirPlain(reflect.ValueOf(c))) // field by field, not through MarshalJSON
+		return string(b)
+	}
+	mkData := func() any {
+		if dataSeed < 0 {
+			return nil
+		}
+		return wirMakeArgs(f, rand.New(rand.NewSource(dataSeed))).data
+	}
+	for i := 1; i < len(ops); i++ {
+		hist := ops[:i+1]
+		fl := strings.Fields(ops[i])
+		switch {
+		case len(fl) == 2 && fl[0] == "set":
+			dataSeed, _ = strconv.ParseInt(fl[1], 10, 64)
+			if _, e := fd.UpdateDataAny(false, true, mkData(), nil, nil); e != nil {
+				panic("cannot set data: " + e.String())
+			}
+			r.Eval("seq:set", "")
+		case len(fl) == 3 && fl[0] == "call":
+			sh := fl[1]
+			seed, _ := strconv.ParseInt(fl[2], 10, 64)
+			if (wirUsesSel(sh) && f.selT == nil) || (wirUsesEl(sh) && f.elT == nil) {
+				r.Eval("seq:n/a", "")
+				continue
+			}
+			mk := func() wirArgs {
+				a := wirMakeArgs(f, rand.New(rand.NewSource(seed)))
+				if dt := mkData(); dt != nil {
+					a.data = dt
+				} else {
+					a.data = reflect.New(f.payload).Interface() // nothing stored: reply / notify carry new(T)
+				}
+				return a
+			}
+			now := time.Now()
+			// (i) on the long-lived instance, judged in full
+			impl, kind, c1, p1 := wirCmdEval(r, f, sh, fd, mk(), mk(), hist, now)
+			want := d.Ask("rt " + f.name + " " + sh)
+			if f.payload.NumField() == 0 || dataSeed < 0 {
+				impl = strings.Replace(impl, "payload=empty", "payload=data", 1)
+				want = strings.Replace(want, "payload=empty", "payload=data", 1)
+			}
+			r.Eval("seq:"+kind, "")
+			// (ii) once more, in a row
+			var c2 model.CmdType
+			g2 := mk()
+			p2 := h.Recover(func() { c2 = wirBuild(fd, sh, g2) })
+			if !wirSameBuild(c1, p1, c2, p2) {
+				r.SpecFail("C18/builder-not-idempotent:"+sh, hist, fmt.Sprintf("%s %s: two calls in a row with equal arguments build %s and then %s", f.name, sh, wirCmdText(c1, p1), wirCmdText(c2, p2)))
+			}
+			// (iii) on a fresh instance holding the same data
+			ffd := wirNewFD(f)
+			if dt := mkData(); dt != nil {
+				ffd.UpdateDataAny(false, true, dt, nil, nil)
+			}
+			var c3 model.CmdType
+			g3 := mk()
+			p3 := h.Recover(func() { c3 = wirBuild(ffd, sh, g3) })
+			if !wirSameBuild(c1, p1, c3, p3) {
+				r.SpecFail("C18/builder-not-pure:"+sh, hist, fmt.Sprintf("%s %s: after this history the instance builds %s, a fresh instance with the same data and arguments builds %s", f.name, sh, wirCmdText(c1, p1), wirCmdText(c3, p3)))
+			}
+			// (iv) the command handed out by the previous call must not have changed meanwhile
+			if prevCmd != nil {
+				if nowSnap := snap(prevCmd); nowSnap != prevSnap {
+					r.SpecFail("C18/built-command-changes-later:"+prevShape, hist, fmt.Sprintf("%s: the %s command returned by the previous call was %s and is %s after this call", f.name, prevShape, prevSnap, nowSnap))
+				}
+			}
+			prevCmd, prevShape = nil, sh
+			if p1 == nil {
+				keep := c1
+				prevCmd, prevSnap = &keep, snap(&keep)
+			}
+			if impl != want {
+				// the model is stateless, so the rest of the history stays comparable: go on
+				r.Mismatch(hist, impl, want, "command table model (a function of its arguments) versus the real builder on a long-lived instance")
+				agreed = false
+			}
+		default:
+			panic("bad op in history: " + ops[i])
+		}
+	}
+	if agreed {
+		r.Traces++
+	}
+	r.Case(strings.Join(ops, "; "))
+	return agreed
+}
+
+// wirGenSeq: a history for one function: mostly calls over all shapes, data set now and then
+// (the first calls run with nothing stored).
+func wirGenSeq(f *wirFn, rng *rand.Rand, n int) []string {
+	ops := []string{"inst " + f.name}
+	for i := 0; i < n; i++ {
+		switch x := rng.Intn(100); {
+		case x < 12 && i > 2:
+			ops = append(ops, fmt.Sprintf("set %d", rng.Int63n(1<<40)))
+		case x < 30:
+			ops = append(ops, fmt.Sprintf("call read %d", rng.Int63n(1<<40))) // plain reads often: after anything
+		default:
+			ops = append(ops, fmt.Sprintf("call %s %d", wirShapes[rng.Intn(len(wirShapes))], rng.Int63n(1<<40)))
+		}
+	}
+	return ops
+}
+
+// wirConc: two goroutines build commands on one instance at the same time; every result must be what a
+// fresh instance builds. "conc <function> <seed>".
+func wirConc(r *h.Report, fns map[string]*wirFn, op string) {
+	fl := strings.Fields(op)
+	f := fns[fl[1]]
+	seed, _ := strconv.ParseInt(fl[2], 10, 64)
+	if f == nil {
+		panic("bad op " + op)
+	}
+	var shapes []string
+	for _, sh := range []string{"read", "readSel", "readEl", "reply", "full", "part", "partSel"} {
+		if !((wirUsesSel(sh) && f.selT == nil) || (wirUsesEl(sh) && f.elT == nil)) {
+			shapes = append(shapes, sh)
+		}
+	}
+	mk := func() wirArgs { return wirMakeArgs(f, rand.New(rand.NewSource(seed))) }
+	expect := map[string]model.CmdType{}
+	for _, sh := range shapes {
+		ffd := wirNewFD(f)
+		ffd.UpdateDataAny(false, true, mk().data, nil, nil)
+		g := mk()
+		var c model.CmdType
+		if p := h.Recover(func() { c = wirBuild(ffd, sh, g) }); p != nil {
+			return // judged elsewhere
+		}
+		expect[sh] = c
+	}
+	fd := wirNewFD(f)
+	fd.UpdateDataAny(false, true, mk().data, nil, nil)
+	var mu sync.Mutex
+	bad := ""
+	var wg sync.WaitGroup
+	for g := 0; g < 2; g++ {
+		wg.Add(1)
+		go func(g int) {
+			defer wg.Done()
+			for i := 0; i < 24; i++ {
+				sh := shapes[(i+g*3)%len(shapes)]
+				args := mk()
+				var c model.CmdType
+				p := h.Recover(func() { c = wirBuild(fd, sh, args) })
+				if !wirSameBuild(c, p, expect[sh], nil) {
+					mu.Lock()
+					if bad == "" {
+						bad = fmt.Sprintf("%s %s: built %s while another goroutine builds on the same instance; a fresh instance builds %s", f.name, sh, wirCmdText(c, p), wirCmdText(expect[sh], nil))
+					}
+					mu.Unlock()
+				}
+			}
+		}(g)
+	}
+	wg.Wait()
+	r.Eval("conc", "")
+	if bad != "" {
+		r.SpecFail("C18/builder-not-pure:concurrent", []string{op}, bad)
+	} else {
+		r.Traces++
+	}
+}
+
 func TestWireCmd(t *testing.T) {
-	r := h.NewReport("wirecmd", "every function the factory registers for any feature type x 12 command shapes (the nine of the property, read+selector+elements, partial reply, delete+partial selectors), built with the real ReadCmdType/ReplyCmdType/NotifyOrWriteCmdType from reflectively generated data, selectors and elements, json.Marshal, json.Unmarshal, recognised with the real CmdType.Data/ExtractFilter/FilterType.Data; exhaustive over functions x shapes, several value seeds each; compared with the prediction of the Lean table model Spine.Cmd; non-trivial = distinct (function, shape, outcome)")
+	r := h.NewReport("wirecmd", "every function the factory registers for any feature type x 12 command shapes (the nine of the property, read+selector+elements, partial reply, delete+partial selectors), built with the real ReadCmdType/ReplyCmdType/NotifyOrWriteCmdType from reflectively generated data, selectors and elements, json.Marshal, json.Unmarshal, recognised with the real CmdType.Data/ExtractFilter/FilterType.Data; exhaustive over functions x shapes, several value seeds each; compared with the prediction of the Lean table model Spine.Cmd; BUILDER PURITY: per function one long-lived function-data instance driven through a seeded history of builder calls over all shapes with data stored and replaced in between (and nothing stored at first) - every command is judged as above (the model is stateless: a build is a function of function, data and arguments), built twice in a row (idempotence) and compared by reflect.DeepEqual with what a fresh instance holding the same data builds (purity), and the command returned by the previous call must be unchanged after the next call (no aliasing of returned commands); plus two goroutines building on one instance at the same time; non-trivial = distinct (function, shape, outcome) and distinct histories")
 	defer r.Write()
 	completed := wirGuard(r)
 	d := h.StartDriver("drv_cmd")
@@ -1225,8 +1447,17 @@ func TestWireCmd(t *testing.T) {
 	}
 	d.Mark()
 	if ops := h.ReplayOps("wirecmd"); ops != nil {
-		for _, op := range ops {
-			run(op)
+		switch {
+		case len(ops) > 0 && strings.HasPrefix(ops[0], "inst "):
+			wirSeq(r, d, byName, ops)
+		default:
+			for _, op := range ops {
+				if strings.HasPrefix(op, "conc ") {
+					wirConc(r, byName, op)
+				} else {
+					run(op)
+				}
+			}
 		}
 		completed()
 		return
@@ -1260,6 +1491,49 @@ func TestWireCmd(t *testing.T) {
 			}
 		}
 	}
+	// builder purity: one long-lived instance per function, seeded histories; first the order that a
+	// cache of the plain read command would get wrong (restricted read, then plain read)
+	for _, fn := range []string{"loadControlLimitListData", "deviceDiagnosisHeartbeatData"} {
+		if f := byName[fn]; f != nil {
+			sh := "readSel"
+			if f.selT == nil {
+				sh = "readEl"
+			}
+			wirSeq(r, d, byName, []string{"inst " + fn, "call read 1", "call " + sh + " 2", "call read 3", "set 4", "call reply 5", "call " + sh + " 6", "call " + sh + " 7", "call read 8", "call full 9", "call part 10", "call read 11"})
+		}
+	}
+	steps := h.Scale(40, 400)
+	srng := h.Rng(1803)
+	for _, f := range fns {
+		wirSeq(r, d, byName, wirGenSeq(f, srng, steps))
+		wirConc(r, byName, fmt.Sprintf("conc %s %d", f.name, srng.Int63n(1<<40)))
+	}
+	// minimise the witnesses of purity failures (histories)
+	for _, sf := range append([]h.SpecFailure{}, r.SpecFailures...) {
+		if !(strings.HasPrefix(sf.Key, "C18/builder-not-") || strings.HasPrefix(sf.Key, "C18/built-command-")) || len(sf.Ops) < 4 || !strings.HasPrefix(sf.Ops[0], "inst ") {
+			continue
+		}
+		key := sf.Key
+		small := h.Shrink(sf.Ops, func(ops []string) bool {
+			if len(ops) < 2 || !strings.HasPrefix(ops[0], "inst ") {
+				return false
+			}
+			q := h.Quiet()
+			wirSeq(q, d, byName, ops)
+			return q.HasSpecFail(key)
+		})
+		r.ReplaceSpecFailOps(key, small)
+	}
+	calls := 0
+	for k, n := range r.Dist {
+		if strings.HasPrefix(k, "seq:ok:") || strings.HasPrefix(k, "seq:panic:") {
+			calls += n
+		}
+	}
+	r.Info["history steps per function"] = steps
+	r.Info["builder calls in histories"] = calls
+	r.Floor("builder calls in histories that were applicable", calls, len(fns)*steps, 0.5)
+	r.Floor("plain reads in histories", r.Dist["seq:ok:read"], calls, 0.1)
 	r.Exhaustive = true
 	r.Info["functions"] = len(fns)
 	r.Info["shapes"] = len(wirShapes)
